@@ -16,12 +16,12 @@ RULE = ('each case = one prepared endpoint + one peer byte string (valid traffic
         'SETTINGS-ACK raising MAX_FRAME_SIZE followed by a frame between the old and new limit, big frames, long first header '
         'fragments, frames that are wrong in two ways at once (inside an open header block and oversized / of the wrong fixed '
         'length / on the wrong stream), the client preface) executed whole on a twin and under chunkings: ALL two-way splits and the all-single-byte '
-        'split for strings <= 300 bytes, frame-boundary-biased and random k-way splits (k<=12, empty chunks) otherwise; plus '
+        'split for strings <= 300 bytes (chunks handed over as bytes, as bytearrays emptied or refilled afterwards, or as memoryviews), frame-boundary-biased and random k-way splits (k<=12, empty chunks) otherwise; plus '
         'random data_to_send(amount) sequences; non-trivial = at least 5 chunked executions compared with the whole-string one; '
         'distinct = hash of (preparation, byte string)')
 MINIMA = {'chunked_executions_compared': 60000, 'error_case_strings': 300, 'noerror_case_strings': 600,
           'exhaustive_two_way_strings': 400, 'limit_changing_strings': 100, 'doubly_invalid_strings': 100, 'output_partitions_checked': 300,
-          'boundary_biased_splits': 5000}
+          'boundary_biased_splits': 5000, 'chunked_executions_with_mutable_or_view_buffers': 20000}
 
 
 def n_cases(tier):
@@ -50,14 +50,42 @@ def run_whole(t, data):
     return res
 
 
-def outcome(t, chunks):
-    """Feed chunks; returns dict(events, out, exc, exc_call_index, cum offsets)."""
+STYLES = ['bytes', 'bytes', 'bytearray-cleared', 'bytearray-reused', 'memoryview']
+
+
+def outcome(t, chunks, style='bytes'):
+    """Feed chunks; returns dict(events, out, exc, exc_call_index, cum offsets).
+
+    style: how the caller holds the bytes - immutable bytes, a fresh bytearray emptied right after the call, one bytearray
+    refilled for every chunk (a recv_into loop), or a memoryview released after the call.  What the caller does with its own
+    buffer once receive_data has returned is none of the library's business."""
     # The output buffer is read once, after the last chunk: reading it between chunks is application behaviour
     # (and a received GOAWAY legitimately discards output that was not yet read, see C19).
     events = []
     cum = 0
+    shared = bytearray()
     for i, ch in enumerate(chunks):
-        res = t.call('receive_data', ch, _drain=False)
+        held = None
+        try:
+            if style == 'bytearray-cleared':
+                arg = held = bytearray(ch)
+            elif style == 'bytearray-reused':
+                shared[:] = ch
+                arg = shared
+            elif style == 'memoryview':
+                arg = held = memoryview(bytes(ch))
+            else:
+                arg = ch
+        except BufferError as e:
+            return {'events': events, 'out': t.c.data_to_send(), 'exc': e, 'call': i, 'before': cum, 'after': cum, 'caller_buffer': True}
+        res = t.call('receive_data', arg, _drain=False)
+        try:
+            if style == 'bytearray-cleared':
+                del held[:]
+            elif style == 'memoryview':
+                held.release()
+        except BufferError as e:
+            return {'events': events, 'out': t.c.data_to_send(), 'exc': e, 'call': i, 'before': cum, 'after': cum, 'caller_buffer': True}
         before = cum
         cum += len(ch)
         if res.exc is not None:
@@ -222,11 +250,19 @@ def run_case(idx, rng, tier, rep):
     compared = 0
     for chunks in splits:
         t2 = twin()
-        got = outcome(t2, chunks)
+        style = rng.choice(STYLES)
+        got = outcome(t2, chunks, style)
         compared += 1
         rep.count('chunked_executions_compared')
+        if style != 'bytes':
+            rep.count('chunked_executions_with_mutable_or_view_buffers')
         w = {'role': 'client' if e_client else 'server', 'kind': kind, 'prep': prep, 'data_hex': data[:200].hex(), 'len': n,
-             'chunk_lens': [len(c) for c in chunks][:20], 'whole': exc_sig(ref['exc']), 'chunked': exc_sig(got['exc'])}
+             'chunk_lens': [len(c) for c in chunks][:20], 'whole': exc_sig(ref['exc']), 'chunked': exc_sig(got['exc']),
+             'caller_buffer_style': style}
+        if got.get('caller_buffer'):
+            rep.violation('C21:library-keeps-hold-of-the-callers-buffer', 'after receive_data returned, the caller could not reuse its '
+                          'own %s: %r' % (style, got['exc']), w)
+            continue
         if exc_sig(got['exc']) != exc_sig(ref['exc']):
             rep.violation('C21:error-differs:whole-%s:chunked-%s' % (fmt(ref['exc']), fmt(got['exc'])),
                           'whole string -> %s, chunked %s -> %s' % (exc_sig(ref['exc']), w['chunk_lens'], exc_sig(got['exc'])), w)
@@ -283,39 +319,49 @@ def run_output(idx, rng, rep):
     e_client = rng.random() < 0.5
     h = scen.Hostile(e_client, keep_log=False)
     t = h.t
-    # queue output without draining
-    for _ in range(rng.randrange(1, 8)):
-        op = rng.choice(['ping', 'settings', 'headers', 'inc', 'data'])
-        if op == 'ping':
-            t.call('ping', bytes(rng.randrange(256) for _ in range(8)), _drain=False)
-        elif op == 'settings':
-            t.call('update_settings', {3: rng.randrange(1, 100)}, _drain=False)
-        elif op == 'inc':
-            t.call('increment_flow_control_window', rng.randrange(1, 1000), _drain=False)
-        elif op == 'headers' and e_client:
-            t.call('send_headers', h.e_next, REQ + [(b'x-r', b'v' * rng.randrange(0, 200))], _drain=False)
-            h.e_next += 2
-        elif op == 'data' and e_client and h.e_next > 1:
-            t.call('send_data', h.e_next - 2, b'd' * rng.randrange(0, 3000), _drain=False)
-    twin = t.clone()
-    whole = twin.c.data_to_send()
-    got = b''
-    reads = []
-    for _ in range(200):
-        amt = rng.choice([0, 1, 8, 9, 10, 16384, 10 ** 6, None, 3, 17])
-        part = t.c.data_to_send(amt)
-        reads.append(amt)
-        if amt is not None and len(part) > amt:
-            rep.violation('C21:data_to_send-returned-more-than-asked', 'data_to_send(%d) returned %d bytes' % (amt, len(part)),
-                          {'reads': reads})
+    # a second endpoint that makes the same calls and reads everything after each of them says what the bytes are
+    ref = scen.Hostile(e_client, keep_log=False).t
+    # several rounds on one connection: what an earlier sequence of reads left behind must not show in the next one
+    all_reads = []
+    for rnd in range(rng.choice([1, 2, 3])):
+        # queue output without draining
+        whole = b''
+        for _ in range(rng.randrange(1, 8)):
+            op = rng.choice(['ping', 'settings', 'headers', 'inc', 'data'])
+            call = None
+            if op == 'ping':
+                call = ('ping', bytes(rng.randrange(256) for _ in range(8)))
+            elif op == 'settings':
+                call = ('update_settings', {3: rng.randrange(1, 100)})
+            elif op == 'inc':
+                call = ('increment_flow_control_window', rng.randrange(1, 1000))
+            elif op == 'headers' and e_client:
+                call = ('send_headers', h.e_next, REQ + [(b'x-r', b'v' * rng.randrange(0, 200))])
+                h.e_next += 2
+            elif op == 'data' and e_client and h.e_next > 1:
+                call = ('send_data', h.e_next - 2, b'd' * rng.randrange(0, 3000))
+            if call is not None:
+                t.call(*call, _drain=False)
+                whole += ref.call(*call).out
+        got = b''
+        reads = []
+        for _ in range(200):
+            amt = rng.choice([0, 1, 8, 9, 10, 16384, 10 ** 6, None, 3, 17])
+            part = t.c.data_to_send(amt)
+            reads.append(amt)
+            if amt is not None and len(part) > amt:
+                rep.violation('C21:data_to_send-returned-more-than-asked', 'data_to_send(%d) returned %d bytes' % (amt, len(part)),
+                              {'reads': reads})
+                return
+            got += part
+            if amt is None or len(got) >= len(whole) + 1:
+                break
+        got += t.c.data_to_send()
+        rep.count('output_partitions_checked')
+        if got != whole:
+            rep.violation('C21:data_to_send-sequence-not-a-partition', 'reads %s concatenate to %d bytes, a single read returns %d' %
+                          (reads[:20], len(got), len(whole)), {'reads': reads[:40], 'role': 'client' if e_client else 'server'})
             return
-        got += part
-        if amt is None or len(got) >= len(whole) + 1:
-            break
-    got += t.c.data_to_send()
-    rep.count('output_partitions_checked')
-    if got != whole:
-        rep.violation('C21:data_to_send-sequence-not-a-partition', 'reads %s concatenate to %d bytes, a single read returns %d' %
-                      (reads[:20], len(got), len(whole)), {'reads': reads[:40], 'role': 'client' if e_client else 'server'})
-        return
+        all_reads.append(tuple(reads))
+    reads = all_reads
     rep.nontrivial(('output', whole, tuple(reads)))
